@@ -12,6 +12,11 @@
                                  generate_user_intent_and_bot_action, generate_flow (from the completion on),
                                  GenerateValueAction incl. the prompt-line removal
     actions/llm/utils.py        escape_flow_name with the interpreter's Unicode `\w` / `\d` classes (generated tables)
+  Phase 4:
+    colang/v1_0/runtime/runtime.py   _process_start_flow with its try/except (`processStartFlowE`), the `while True` loop of
+                                 generate_events (`genLoop`), both as they are and as repaired by
+                                 fixes/C17-v1-flow-error-ends-turn.diff (`processStartFlowR`, `stepR`, `genLoopR`)
+    actions/v2_x/generation.py  the `literal_eval` wrapper at the end of generate_value (`generateValueV2`, repaired `…R`)
 -/
 import NemoVerif.Models.LlmText
 import NemoVerif.Generated.C17Tables
